@@ -249,3 +249,24 @@ Qed.
 Lemma process_safe_default_proof :
   forall m l, process_safe BULK_FREE_N m l = take_safe BULK_FREE_NUM m l.
 Proof. intros. apply psi_take_safe; [cbv; lia|reflexivity|lia]. Qed.
+
+(* repeated processing with a min_version above every queued age empties the queue in at most len() calls,
+   whatever the threshold (the harness drains every script this way) *)
+Fixpoint drain_n (n : nat) (thr m : N) (l : list N) : list N :=
+  match n with O => l | S k => drain_n k thr m (snd (process_safe thr m l)) end.
+Lemma drain_empties_proof :
+  forall n thr m l, Forall (fun a => a < m) l -> (length l <= n)%nat -> drain_n n thr m l = [].
+Proof.
+  induction n as [|n IH]; intros thr m l F L; cbn [drain_n].
+  - destruct l; [reflexivity|cbn in L; lia].
+  - pose proof (process_safe_split thr m l) as SP.
+    apply IH.
+    + rewrite <- SP in F. apply Forall_app in F. tauto.
+    + destruct l as [|a r]; [unfold process_safe; cbn; lia|].
+      inversion F as [|x y Ha Fr]; subst.
+      pose proof (proj2 (proj2 (proj2 (proj2 (process_safe_items_spec_proof thr m (a :: r))))) a r eq_refl Ha) as NE.
+      cbv zeta in NE. apply (f_equal (@length N)) in SP. rewrite app_length in SP.
+      destruct (fst (process_safe thr m (a :: r))) as [|z zs]; [congruence|]. cbn [length] in *. lia.
+Qed.
+Example drain_example : drain_n 3 0 10 [1; 2; 3] = [] /\ drain_n 2 0 10 [1; 2; 3] = [3] /\ drain_n 1 U64MAX 10 [1; 2; 3] = [].
+Proof. vm_compute. auto. Qed.
